@@ -234,10 +234,25 @@ def run(ctx):
             seqs.append(([a, b] + rng.sample(PROBES, 4),))
     for a in GEN_STATE:                       # each generator-state probe, followed by programs whose text shows the indent
         seqs.append(([a, "struct V { int a; struct { int b; } c; }; void g(void) { if (1) { x = 1; } }", a, pool[0]],))
+    # parses abandoned exactly at a directive (a syntax error just in front of a #pragma line with text, a
+    # pragma where no rule takes one, an error on a #line line), then ordinary programs: whatever the
+    # lexer had ready for the next call must be gone
+    ABANDON = ["int x\n#pragma pack(1)\n", "int a[] = {\n#pragma GCC diagnostic push\n 1, 2 };", "struct S { int a\n#pragma pack(2)\n };",
+               "int f(int a,\n#pragma omp x y z\n int b);", "int q = 1 +\n#pragma p q\n 2;", "int w\n#line 7 \"o.c\"\n@", "int v = (\n#pragma one\n#pragma two three\n"]
+    FOLLOW = ["int y;", "typedef int T; T x;", "void g(void) { y = 1; }", "#pragma last\nint z;"]
+    for a in ABANDON:
+        for f in FOLLOW:
+            seqs.append(([a, f],))
+        seqs.append(([a, a, FOLLOW[0], a, FOLLOW[1]],))
+    # the same directive text under different file names (the file name of call k is f<k mod 3>.c): what a
+    # directive without a file name means depends on the parse it stands in, not on an earlier one
+    BARE = ["int a;\n#line 7\nint b;\n", "# 9\nint c;", "int d;\n# 1 \"inc.h\"\nint e;\n#line 7\nint f;\n", "#line 7\nint g = @;"]
+    seqs.append((BARE + BARE + BARE[:2],))
+    seqs.append(([BARE[2], BARE[0], BARE[0], BARE[3], BARE[1], BARE[3]],))
     seqs.append((GEN_STATE + GEN_STATE,))
     seqs.append((CLASH + CLASH,))
     seqs.append(([pool[0], pool[0], CLASH[3], pool[0]],))
-    ctx.rule("%d sequences of 2-16 parse calls on one CParser instance (systematic: 6 file-scope declarations of a name x 15 continuations that succeed or fail at nesting depth 0-3 / inside a struct, for-init, initializer, switch, pragma, after a linemarker, each followed by each of 15 probes whose parse depends on what the name is; pairs of such setups; 19 generator-state probes (empty / nested struct, union, enum bodies, empty blocks and switches, pragmas) each followed by programs whose text shows the indentation; random: valid programs of the pool, programs truncated at arbitrary tokens - leaving scopes open -, programs with clashing typedef/variable names, linemarkers, lexer errors), each call compared (AST incl. coordinates, or exception message) with a fresh instance; ASTs of different calls must share no node object; the same CGenerator instance is reused across the successful calls, then for sub-trees visited on their own and for the tree again after an edit in place; a CLexer is reused through input() after being abandoned mid-stream" % len(seqs))
+    ctx.rule("%d sequences of 2-16 parse calls on one CParser instance (systematic: 6 file-scope declarations of a name x 15 continuations that succeed or fail at nesting depth 0-3 / inside a struct, for-init, initializer, switch, pragma, after a linemarker, each followed by each of 15 probes whose parse depends on what the name is; pairs of such setups; 19 generator-state probes (empty / nested struct, union, enum bodies, empty blocks and switches, pragmas) each followed by programs whose text shows the indentation; 7 programs abandoned exactly at a directive x 4 ordinary programs after them; random: valid programs of the pool, programs truncated at arbitrary tokens - leaving scopes open -, programs with clashing typedef/variable names, linemarkers, lexer errors), each call compared (AST incl. coordinates, or exception message) with a fresh instance; ASTs of different calls must share no node object; the same CGenerator instance is reused across the successful calls, then for sub-trees visited on their own and for the tree again after an edit in place; a CLexer is reused through input() after being abandoned mid-stream" % len(seqs))
     res = pmap(run_sequence, seqs)
     for (texts,), probs in zip(seqs, res):
         for k, why in probs:
